@@ -1,15 +1,7 @@
 //! wwcheck — property-based checks for white-whale-core. See /verif/DESIGN.md.
 
-mod engine;
-mod incentives;
-mod mocks;
-mod pools;
-mod props;
-mod refmath;
-mod vaults;
-mod world;
-
-use engine::{load_known, replay_property, run_property, RunEnv, Tier};
+use wwcheck::engine::{load_known, replay_property, run_property, RunEnv, Tier};
+use wwcheck::{props, refmath};
 
 fn usage() -> ! {
     eprintln!("usage: wwcheck <C01..C20> [--tier quick|thorough] [--replay FILE] [--only CHECK] [--threads N] [--scale F]");
